@@ -484,7 +484,7 @@ func ParentMain(id, tier string, seed int64, childBin string) int {
 			cmd := exec.Command(childBin, "child", id, tier, strconv.FormatInt(seed, 10), strconv.Itoa(s), strconv.Itoa(procs), scratch, outPath)
 			cmd.Stdout = ef
 			cmd.Stderr = ef
-			cmd.Env = append(os.Environ(), "GORACE=halt_on_error=0 log_path="+filepath.Join(scratch, fmt.Sprintf("race-%d", s)), "GOTRACEBACK=all")
+			cmd.Env = append(os.Environ(), "GORACE=halt_on_error=0 exitcode=0 log_path="+filepath.Join(scratch, fmt.Sprintf("race-%d", s)), "GOTRACEBACK=all")
 			err := cmd.Run()
 			ef.Close()
 			results <- childRes{s, err, outPath, errPath}
